@@ -9,9 +9,10 @@ namespace Pyro.ServerLoop
 
 open Pyro.Server
 
-/-- every containment layer ends in a catch-all for `Exception` -/
+/-- every containment layer the property rests on ends in a catch-all for `Exception`.
+    (`thrJob`, the ladder inside the request loop of a connection job, is not among them: whatever
+    it lets through still meets the job's `finally` and then `Worker.run`'s catch-all.) -/
 structure GoodCfg (g : Cfg) : Prop where
-  thrJob : Handler.exception ∈ g.thrJob
   thrShake : Handler.exception ∈ g.thrShake
   thrDeny : Handler.exception ∈ g.thrDeny
   thrWorker : Handler.exception ∈ g.thrWorker
